@@ -61,7 +61,54 @@ KIND_TAGS = {
     "text": ["str"],
     "selfc": ["Other", "Other+compiled"],
     "newobj": ["new"],
+    "varpre_small": ["", "Other", "str2", "other", "Empty", "Other|Alternation", "Empty|Other", "Other|other", "str2|Empty|Other",
+                     "Assertion|str1"],
+    "varpre": ["", "Other", "str2", "other", "Other|Alternation", "Empty|Other", "Other|Empty", "str2|Other", "Other|str1",
+               "Other|other", "Alternation|Empty|Other", "Other|Other|Other", "Assertion|Other|str2", "Other|Alternation|Empty",
+               "Empty|Empty", "str0|Other", "Other|str0|Quantifier"],
 }
+
+NAME_RX = "[A-Za-z_]\\w*"
+SHAPES = {
+    "nc": ("(?:", None, ")"), "nci": ("(?i:", None, ")"), "cap": ("(", None, ")"), "named": ("(?P<", "N", ">", None, ")"),
+    "neglook": ("(?!", None, ")"), "neglookbehind": ("(?<!", None, ")"), "cond": ("(?(", "N", ")", None, ")"), "bref": ("(?P=", "N", ")"),
+}
+
+
+def name_lang():
+    from . import strre
+    return strre.plain_regex(NAME_RX)
+
+
+def new_group_shaped(eng, path, label, shape):
+    """a Group-typed operand whose text has one of the shapes the class invariant lists"""
+    from . import strre
+    obj = Obj(pregex_class(eng), "pregex", label=label)
+    pieces = []
+    body = gname = None
+    for part in SHAPES[shape]:
+        if part is None:
+            t = z3.String(f"body_{label}_{obj.oid}")
+            path.assume(z3.Length(t) > 0)
+            path.assume(z3.Not(z3.PrefixOf(z3.StringVal("?"), t)))
+            body = SStr([Atom(t, "pat", {"oid": obj.oid * 1000 + 1, "type": "Body", "label": label + ".body",
+                                         "cats": [respec.ALT, respec.BRANCH, respec.PIECE, respec.ATOM]})])
+            pieces.append(body)
+        elif part == "N":
+            t = z3.String(f"gname_{label}_{obj.oid}")
+            path.assume(strre.lang_pred(eng, name_lang())(t))
+            gname = SStr([Atom(t, "name", {"key": f"gname_{label}", "lang": name_lang()})])
+            pieces.append(gname)
+        else:
+            pieces.append(part)
+    f = path.fields(obj)
+    f["_Pregex__pattern"] = mkstr(*pieces)
+    f["_Pregex__type"] = type_enum(eng, "Group")
+    f["_Pregex__repeatable"] = True
+    f["_Pregex__compiled"] = None
+    obj.info = {"oid": obj.oid, "type": "Group", "shape": shape, "body": body, "gname": gname, "label": label}
+    return obj
+
 
 
 def forks_for(params):
@@ -75,6 +122,14 @@ def forks_for(params):
 
 
 def make_value(eng, path, name, kind, tag, fi=None):
+    if kind in ("varpre", "varpre_small"):
+        if tag == "":
+            return ()
+        return tuple(make_value(eng, path, f"{name}{i}", "pre", t, fi) for i, t in enumerate(tag.split("|")))
+    if tag.startswith("Group:"):
+        return new_group_shaped(eng, path, name, tag.split(":")[1])
+    if kind in ("optname", "name") and tag == "str":
+        return SStr([Atom(z3.String(f"{name}"), "name", {"key": name})])
     if tag in TYPE_NAMES:
         return new_pregex(eng, path, name, tag)
     if tag.endswith("+compiled"):
@@ -211,6 +266,19 @@ def sb_ESC(eng, path, s):
         for c in "^$()[]{}?+*.|/":
             out = out.replace(c, "\\" + c)
         return out
+    # identity on strings that cannot contain an escaped character: decimal numerals, validated group names
+    if all(isinstance(p, str) and not any(c in p for c in "\\^$()[]{}?+*.|/") or (not isinstance(p, str) and p.tag == "dec")
+           for p in s.pieces):
+        return s
+    if len(s.pieces) == 1 and not isinstance(s.pieces[0], str) and s.pieces[0].tag in ("name", "opq"):
+        from . import strre
+        from . import rx2smt as R
+        for lang, sym in strre._langs:
+            if path.implied(sym(s.term())):
+                meta = R.cs_of("\\^$()[]{}?+*.|/")
+                ok, _, _ = R.included(lang, R.star(R.cs(R.cs_minus(strre.universe(), meta))), strre.universe())
+                if ok:
+                    return s
     key = str_key(s)
     lenclass = None
     for p in s.pieces:
@@ -469,6 +537,109 @@ def sb_APPENDED(eng, path, lst, x):
     return TermList(APP(lst.term, box(x)))
 
 
+# ---- groups / wrappers ------------------------------------------------------------------------------------
+
+def sb_SHAPE(eng, path, p):
+    info = getattr(p, "info", None) or {}
+    if "shape" not in info:
+        raise Limitation("shape of a group-typed operand is not known on this path")
+    return info["shape"]
+
+
+def sb_BODY(eng, path, p):
+    return p.info["body"]
+
+
+def sb_GNAME(eng, path, p):
+    return p.info["gname"]
+
+
+def sb_VALIDNAME(eng, path, name):
+    """a capturing-group name the library accepts: an identifier-like word (documented rule [A-Za-z_]\\w*)"""
+    from . import strre
+    if isinstance(name, str):
+        import re as _re
+        return _re.fullmatch(NAME_RX, name) is not None
+    return strre.lang_pred(eng, name_lang())(str_term(name))
+
+
+BREF_RX = "[A-Za-z_][A-Za-z_0-9]*"
+
+
+def sb_BREFNAME(eng, path, name):
+    """a name Backreference accepts (documented: ASCII identifier)"""
+    from . import strre
+    if isinstance(name, str):
+        import re as _re
+        return _re.fullmatch(BREF_RX, name) is not None
+    return strre.lang_pred(eng, strre.plain_regex(BREF_RX))(str_term(name))
+
+
+def sb_TP(eng, path, x):
+    """spec-level _to_pregex (x must not be BADPRE)"""
+    q = "pregex.core.pre.Pregex._to_pregex"
+    return eng.apply_contract(eng.index.func(q), eng.contracts[q], {"pre": x}, None, path)
+
+
+def sb_METHOD(eng, path, obj, name, *args):
+    """the method form: obj.name(*args), by the method's contract"""
+    from .symex import Frame
+    return eng.call_method(obj, name, list(args), {}, Frame(None, {}, None, eng.spec_module), path)
+
+
+def _callee_env(eng, qualshort, selfobj, args):
+    q = "pregex.core.pre.Pregex." + qualshort
+    c = eng.contracts[q]
+    names = [n for n in c["params"] if n != "self"]
+    env = {"self": selfobj}
+    fi = eng.index.func(q)
+    # bind positionally, fill defaults from the real signature
+    full = eng.bind_args(fi, [selfobj] + list(args), {}, None, path_holder[0])
+    return q, c, full
+
+
+path_holder = [None]
+
+
+def sb_CALLEE_RAISES(eng, path, qualshort, exc, selfobj, *args):
+    from .vc import eval_spec
+    path_holder[0] = path
+    q, c, env = _callee_env(eng, qualshort, selfobj, args)
+    cond = c.get("raises", {}).get(exc)
+    if cond is None:
+        return False
+    return eng.truth(eval_spec(eng, cond, env, path, eng.index.func(q)), path)
+
+
+def sb_FIRST_EXC(eng, path, qualshort, selfobj, *args):
+    from .vc import eval_spec
+    path_holder[0] = path
+    q, c, env = _callee_env(eng, qualshort, selfobj, args)
+    for exc, cond in c.get("raises", {}).items():
+        t = eng.truth(eval_spec(eng, cond, env, path, eng.index.func(q)), path)
+        if path.branch(t, f"first-exc {qualshort} {exc}"):
+            return exc
+    return ""
+
+
+def infer_pair(eng, text):
+    key = ("infer", str_key(text))
+    if key not in eng.memo_results:
+        eng.memo_results[key] = (Unknown("inferred type of " + repr(text)[:40]), Unknown("inferred flag of " + repr(text)[:40]))
+    return eng.memo_results[key]
+
+
+def opaque_unknown(v):
+    return v
+
+
+def sb_INFERRED(eng, path, p):
+    """(type, repeatable) of p are what __infer_type returned for p's text"""
+    f = path.fields(p)
+    t, r = infer_pair(eng, f["_Pregex__pattern"])
+    return f["_Pregex__type"] is t and f["_Pregex__repeatable"] is r
+
+
 SPEC_BUILTINS = {k[3:]: v for k, v in list(globals().items()) if k.startswith("sb_")}
 
 
@@ -486,8 +657,8 @@ def ret_pregex(eng, path, env, fi, contract):
             return env["self"]
     ref = eval_spec(eng, c["ref"], env, path, fi) if c.get("ref") else None
     key = (fi.qualname, tuple(value_key(v) for v in env.values()))
-    if key in eng.memo_results:
-        return eng.memo_results[key]
+    if key in path.memo:
+        return path.memo[key]
     obj = Obj(pregex_class(eng), "pregex", label="res:" + fi.qualname.split(".")[-1])
     info = {"key": repr(key), "ref": ref, "oid": obj.oid, "atomic": bool(c.get("atomic"))}
     f = path.fields(obj)
@@ -499,7 +670,7 @@ def ret_pregex(eng, path, env, fi, contract):
         f["_Pregex__type"] = Unknown("type of " + fi.qualname + " result")
     f["_Pregex__repeatable"] = Unknown("repeatable flag of " + fi.qualname + " result")
     f["_Pregex__compiled"] = None
-    eng.memo_results[key] = obj
+    path.memo[key] = obj
     return obj
 
 
@@ -520,22 +691,41 @@ def ret_expr(eng, path, env, fi, contract):
     return eval_spec(eng, contract["result"], env, path, fi)
 
 
-def ret_newpregex(eng, path, env, fi, contract):
+def ret_none(eng, path, env, fi, contract):
+    return None
+
+
+def ret_infer(eng, path, env, fi, contract):
+    return infer_pair(eng, env["pattern"])
+
+
+def ret_initpregex(eng, path, env, fi, contract):
+    ret_newpregex(eng, path, env, fi, contract, obj=env["self"])
+    return None
+
+
+def ret_newpregex(eng, path, env, fi, contract, obj=None):
     """Pregex(pattern, escape): text = ESC(pattern) | pattern; the inferred type is what Inv / the assumed contract of
     __infer_type gives: '' -> Empty, an escaped 1-character literal -> Token, a longer escaped literal -> Other"""
     pat, esc = env["pattern"], env["escape"]
     if not isinstance(esc, bool):
         esc = path.branch(esc, "escape flag")
     text = sb_ESC(eng, path, pat) if esc else pat
-    obj = Obj(pregex_class(eng), "pregex", label="new")
+    if obj is None:
+        mkey = ("new", str_key(text) if is_strv(text) else repr(text))
+        if mkey in path.memo:
+            return path.memo[mkey]
+        obj = Obj(pregex_class(eng), "pregex", label="new")
+        path.memo[mkey] = obj
     f = path.fields(obj)
     f["_Pregex__pattern"] = text
     f["_Pregex__compiled"] = None
     f["_Pregex__repeatable"] = Unknown("repeatable flag of a constructed value")
     f["_Pregex__type"] = Unknown("type of a constructed value")
-    if text == "":
-        f["_Pregex__type"] = type_enum(eng, "Empty")
-        f["_Pregex__repeatable"] = True
+    if isinstance(text, str):
+        # a concrete text: the real __infer_type is simply run on it
+        ty, rp = pregex_class(eng).pyobj._Pregex__infer_type(text)
+        f["_Pregex__type"], f["_Pregex__repeatable"] = ty, bool(rp)
     elif isinstance(text, SStr) and len(text.pieces) == 1 and not isinstance(text.pieces[0], str) and text.pieces[0].tag == "esc":
         cats = text.pieces[0].info["cats"]
         if cats == [respec.ATOM]:
@@ -560,7 +750,7 @@ def ret_setcompiled(eng, path, env, fi, contract):
     return None
 
 
-RETURNS = {"setcompiled": ret_setcompiled, "to_pregex": ret_to_pregex, "pregex": ret_pregex, "expr": ret_expr, "newpregex": ret_newpregex}
+RETURNS = {"none": ret_none, "infer": ret_infer, "initpregex": ret_initpregex, "setcompiled": ret_setcompiled, "to_pregex": ret_to_pregex, "pregex": ret_pregex, "expr": ret_expr, "newpregex": ret_newpregex}
 
 
 # ------------------------------------------------------------------------------------------------------
@@ -595,6 +785,10 @@ def build_engine(index, contracts):
         table[q] = c
     eng = Engine(index, table, dict(SPEC_BUILTINS))
     eng.last_detail = None
+    eng.hints = {}
+    from . import strre
+    strre._langs.clear()
+    strre.lang_pred(eng, name_lang())       # the documented name language is registered first
     eng.externals["re.compile"] = ext_re_compile
     RM.install(eng)
     load_spec_module(eng)
